@@ -23,6 +23,8 @@ BLANK = {'env': [], 'ini': [], 'glob': [], 'dodo': [], 'asgs': None, 'sep': Fals
 # ------------------------------------------------------------------------------------------------ (a) layers
 
 def _layer_text(ty, i, name):
+    if ty == 'bool':
+        return ['yes', 'off', 'TRUE', '0'][i % 4]
     if ty == 'int':
         return str(10 + i)
     if ty == 'list':
@@ -31,6 +33,8 @@ def _layer_text(ty, i, name):
 
 
 def _layer_typed(ty, i, name):
+    if ty == 'bool':
+        return i % 2 == 0
     if ty == 'int':
         return 10 + i
     if ty == 'list':
@@ -39,9 +43,10 @@ def _layer_typed(ty, i, name):
 
 
 def gen_layers_case(rng, base, present=None):
-    ty = rng.choice(['str', 'str', 'int', 'list'])
-    o = {'name': 'probe', 'type': ty, 'default': {'str': 'declared', 'int': 0, 'list': ['d']}[ty],
-         'short': optlib.SHORTS[0], 'long': 'probe', 'inverse': '', 'choices': [], 'env_var': 'DOITV_A'}
+    ty = rng.choice(['str', 'str', 'int', 'list', 'bool'])
+    o = {'name': 'probe', 'type': ty, 'default': {'str': 'declared', 'int': 0, 'list': ['d'], 'bool': rng.random() < 0.5}[ty],
+         'short': optlib.SHORTS[0], 'long': 'probe', 'inverse': 'no-probe' if ty == 'bool' else '', 'choices': [],
+         'env_var': 'DOITV_A'}
     if present is None:
         p_ = rng.choice([0.2, 0.5, 0.5, 0.8])
         cut = rng.choice([0, 0, 0, 1, 2, 3, 3, 4, 5, 6, 6, 7, 8])     # nothing above layer `cut`: the weaker layers get to decide too
@@ -66,6 +71,9 @@ def gen_layers_case(rng, base, present=None):
     asgs = []
     if 'cmdline' in present:
         for n in range(rng.choice([1, 1, 2])):
+            if ty == 'bool':
+                asgs.append(['lFlag', rng.choice(['probe', 'no-probe'])])
+                continue
             asgs.append([rng.choice(['lEq', 'lDet']), 'probe', _layer_text(ty, 0, 'cmdline') if n == 0 else
                          {'int': '77', 'list': 'more', 'str': 'cmdline'}[ty]])
     case['asgs'] = asgs
@@ -85,7 +93,8 @@ def winner_request(case):
     def sec(kind, fld):
         return [e for e in (fs.get(kind) or {}).get(fld, []) if e[0] == 'probe'] if fs.get(kind) else []
     return {'model': 'opt', 'op': 'winner', 'opt': o,
-            'occ': [[False, a[2]] for a in case['asgs'] or [] if a[1] == 'probe' and len(a) == 3],
+            'occ': [[a[1] == 'no-probe', a[2] if len(a) == 3 else ''] for a in case['asgs'] or []
+                    if a[1] in ('probe', 'no-probe') and a[0] in ('lFlag', 'lEq', 'lDet')],
             'envv': dict((k, v) for k, v in case['env']).get('DOITV_A'),
             'dodo': case['dodo'],
             'gApi': case['glob'], 'gToml': sec('toml', 'glob'), 'gCfg': sec('cfg', 'glob'),
@@ -97,7 +106,7 @@ def present_of(case):
 
     def has(lst):
         return any(e[0] == 'probe' for e in lst or [])
-    flags = {'cmdline': any(a[1] == 'probe' for a in case['asgs'] or []),
+    flags = {'cmdline': any(a[1] in ('probe', 'no-probe') for a in case['asgs'] or []),
              'environ': any(k == 'DOITV_A' for k, _ in case['env']),
              'dodoCfg': has(case['dodo']),
              'secCfg': has((fs.get('cfg') or {}).get('ini')), 'secToml': has((fs.get('toml') or {}).get('ini')),
@@ -129,8 +138,8 @@ def judge_layers(case, impl, model):
         i = LAYERS.index(want_layer) if want_layer in LAYERS else None
         exp = probe_opt(case)['default'] if i is None else _layer_typed(ty, i, want_layer)
         if want_layer == 'cmdline':
-            last = [a for a in case['asgs'] if a[1] == 'probe'][-1][2]
-            exp = int(last) if ty == 'int' else last
+            last = [a for a in case['asgs'] if a[1] in ('probe', 'no-probe')][-1]
+            exp = (last[1] == 'probe') if ty == 'bool' else int(last[2]) if ty == 'int' else last[2]
         if got != exp:
             viol.append(('precedence', 'layers present %s: probe = %r, the layer that must win (%s) says %r'
                          % (present, got, want_layer, exp)))
